@@ -10,7 +10,7 @@
      frame_rel s s'     same current index, same number of tracks, every other track identical
      globals_eq a b     a and b agree on everything but the track list and the current index *)
 From Sakura.Model Require Import Base Cursor Length Event Song Token LoopMachine LexCore RunCore.
-From Sakura.Proofs Require Import BlockP TrackIndepP.
+From Sakura.Proofs Require Import BlockP TrackIndepP TrackBlocksP.
 Open Scope Z_scope.
 
 (* change_cur_track(n): a pending octave-once is first settled (Song.settle_octave_once: undone on the OLD current
@@ -163,6 +163,50 @@ Example C12_example_indep :
   same_cur (s_set_cur ex_s3 1) (s_tracks (change_cur_track (s_set_cur ex_s3 1) 30)).
 Proof. repeat split; vm_compute; reflexivity || lia. Qed.
 
+(* ================================================================================================== *)
+(* BLOCKS WITH LOOPS, Sub AND TUPLETS (proofs/TrackBlocksP.v), at the level of exec() itself.
+     block_ok d steps A   (computable) the loop brackets of A are balanced (LoopExecP.parse_toks answers a structured program),
+                          the state-free step bound of that program is below `steps`, every other token of A is track-local
+                          (TrackIndepP.track_local) or a line-number token, or a Sub / tuplet token whose children are a
+                          block again (block_ok (d-1)); no track switch, no TrackSync, no song-global command, no macro call
+     pair_fuel_ok         the step bounds of the two blocks plus the two track tokens stay below `steps`
+     gnorm                forgets the two DEAD registers: the start tick of the last chord while no chord is open (hnorm)
+                          and the line number (read only by log entries, which no token of a block writes)
+   exec() of such a block is a transformer with four properties (TrackBlocksP.localT): errors pass through, no track but the
+   current one changes, the run is the same whatever the other tracks are, and states that differ only in the dead
+   registers are not told apart.  The properties are closed under composition, loops (LoopSpec.passes) and the Sub / tuplet
+   arms - C12_block_local - and give the commutation as for C12_commute_partial.
+   Side conditions stated explicitly (the property says "and on song-global settings"): no octave-once pending and the
+   break flag down at the start; each block, run on its own track, leaves the song-global registers as it found them up to
+   the dead ones (globals_eq (gnorm ..)): this covers the chord registers, the octave-once register, the random seed (a block
+   with .Random reservations that draws numbers changes the seed and is outside) and the key / tempo / time registers. *)
+Theorem C12_block_local : forall (steps d : nat) (A : list tok), block_ok d steps A = true -> localT (exec_f d steps A).
+Proof. exact block_local. Qed.
+
+Theorem C12_commute_blocks : forall (d steps : nat) (A B : list tok) (s : song) (i j : nat) (sA sB : song),
+  block_ok (S d) steps A = true -> block_ok (S d) steps B = true -> pair_fuel_ok steps A B = true -> i <> j ->
+  (i < length (s_tracks s))%nat -> (j < length (s_tracks s))%nat -> (i <= 999)%nat -> (j <= 999)%nat ->
+  s_octave_once s = 0 -> s_break_flag s = 0 ->
+  exec_f (S d) steps A (Ok (s_set_cur s i)) = Ok sA -> globals_eq (gnorm sA) (gnorm s) ->
+  exec_f (S d) steps B (Ok (s_set_cur s j)) = Ok sB -> globals_eq (gnorm sB) (gnorm s) ->
+  exists r1 r2,
+    exec_f (S d) steps (TTrack (Z.of_nat i) :: A ++ TTrack (Z.of_nat j) :: B) (Ok s) = Ok r1 /\
+    exec_f (S d) steps (TTrack (Z.of_nat j) :: B ++ TTrack (Z.of_nat i) :: A) (Ok s) = Ok r2 /\
+    s_tracks r1 = s_tracks r2 /\ globals_eq (gnorm r1) (gnorm r2) /\ s_cur r1 = j /\ s_cur r2 = i /\
+    s_tracks r1 = upd_nth j (fun _ => nth j (s_tracks sB) dtrk) (upd_nth i (fun _ => nth i (s_tracks sA) dtrk) (s_tracks s)).
+Proof. exact blocks_commute_exec. Qed.
+
+(* non-vacuity: A = [2 c Sub{e >} ] v90 (a loop around a Sub block), B = {c e}4 o6 [3 e : r8 ] (a tuplet, a loop with ':') on
+   tracks 1 and 4 of a six-track song; the Sub block moves the line number (7), which gnorm forgets *)
+Example C12_example_blocks :
+  block_ok 2 100 xb_A = true /\ block_ok 2 100 xb_B = true /\ pair_fuel_ok 100 xb_A xb_B = true /\
+  exists sA sB,
+    exec_f 2 100 xb_A (Ok (s_set_cur xb_s 1)) = Ok sA /\ globals_eq (gnorm sA) (gnorm xb_s) /\
+    exec_f 2 100 xb_B (Ok (s_set_cur xb_s 4)) = Ok sB /\ globals_eq (gnorm sB) (gnorm xb_s) /\
+    s_lineno sA = 7 /\ s_lineno xb_s = 0 /\
+    length (tr_events (nth 1 (s_tracks sA) dtrk)) = 4%nat /\ length (tr_events (nth 4 (s_tracks sB) dtrk)) = 5%nat.
+Proof. exact blocks_example. Qed.
+
 Print Assumptions C12_default_channel.
 Print Assumptions C12_settle_octave_once.
 Print Assumptions C12_default_channel_any_order.
@@ -175,3 +219,5 @@ Print Assumptions C12_block_frame.
 Print Assumptions C12_block_indep.
 Print Assumptions C12_harmony_time_dead.
 Print Assumptions C12_commute_partial.
+Print Assumptions C12_block_local.
+Print Assumptions C12_commute_blocks.
